@@ -53,7 +53,15 @@ pub fn check_roundtrip(c: &mut Case, name: &str, t: &TextArchive, content: &Cont
     let ser = match c.lib("TextArchive::serialize", || t.serialize()) {
         None => return,
         Some(Err(e)) => {
-            c.fail("serialize_err", "serialize_err", format!("{}: serialize returned Err({}) for {}", name, e, content.describe()));
+            // text the file's Shift-JIS parts (title, keys; messages of the legacy format) cannot
+            // express may be refused; if it is accepted it must come back unchanged (checked below)
+            let unrepresentable = crate::refs::strings::unencodable(&content.title)
+                || content.entries.iter().any(|(k, v)| crate::refs::strings::unencodable(k) || (!content.unicode && crate::refs::strings::unencodable(v)));
+            if unrepresentable {
+                c.outcome("serialize_refused_unencodable_text");
+            } else {
+                c.fail("serialize_err", "serialize_err", format!("{}: serialize returned Err({}) for {}", name, e, content.describe()));
+            }
             return;
         }
         Some(Ok(b)) => b,
@@ -303,6 +311,24 @@ pub fn gen(rng: &mut Rng, quick: bool) -> Content {
         let l = entries.len() - 1;
         entries[l].1 = String::new();
     }
+    if rng.chance(1, 50) {
+        // text outside Shift-JIS where the file needs Shift-JIS: the title, a key, or a legacy message
+        let u = rng.pick(&crate::refs::strings::UNENCODABLE).to_string();
+        match rng.below(3) {
+            0 => title = u,
+            1 if !entries.is_empty() => {
+                let i = rng.below(entries.len());
+                if !entries.iter().any(|(k, _)| *k == u) {
+                    entries[i].0 = u;
+                }
+            }
+            _ if !entries.is_empty() && !unicode => {
+                let i = rng.below(entries.len());
+                entries[i].1 = u;
+            }
+            _ => title = u,
+        }
+    }
     Content { unicode, be, title, entries }
 }
 
@@ -417,7 +443,6 @@ pub fn run(cx: &mut Ctx) {
             super::poison::maybe(c, 7);
             let mut rng = c.rng.clone();
             let content = gen(&mut rng, quick);
-            debug_assert!(content.unicode || content.entries.iter().all(|(_, v)| sjis_encode(v).is_some()));
             check(c, "random", &content);
         });
     }
